@@ -331,7 +331,10 @@ def run(seed, tier, n=None, modes=("static", "static", "static", "samename", "di
             lines, expect, doc, tags = guarded(sseed, mode)
         except Violation as v:
             for x in [v] + list(getattr(v, "also", [])):
-                res.violations.append({"pid": x.pid, "what": x.what, "sig": x.sig, "replay": {"suite": "grid", "seed": sseed, "mode": mode}})
+                sig = dict(x.sig or {})
+                sig.setdefault("suite", "grid")
+                sig.setdefault("mode", mode)
+                res.violations.append({"pid": x.pid, "what": x.what, "sig": sig, "replay": {"suite": "grid", "seed": sseed, "mode": mode}})
             continue
         res.hist.update(tags)
         res.hist["mode-" + mode] += 1
